@@ -499,6 +499,8 @@ class DimArrayOnDisk(GetSetDelAttrMixin, NetCDFVariable, AbstractDimArray):
         if isinstance(dima, DimArray):
             for i, ax in enumerate(self.axes):
                 idx = indices[i]
+                if ax.name not in dima.dims:
+                    continue # e.g. dimension indexed out by a scalar: no axis to check
                 axis = dima.axes[ax.name]
                 # write unlimited dimensions
                 if self._ds.dimensions[ax.name].isunlimited():
